@@ -61,69 +61,37 @@ type h12Expect struct {
 }
 
 func h12Clip(v, lim int) int {
-	if v < 0 {
-		return 0
-	}
-	if v > lim-1 {
-		return lim - 1
-	}
-	return v
+	v = vsymIteInt(v > lim-1, lim-1, v)
+	return vsymIteInt(v < 0, 0, v)
 }
+
+func h12b2i(b bool) int { return vsymIteInt(b, 1, 0) }
 
 // h12Reference: xterm's decoding of button code c (after removing the offset),
 // final byte (release for SGR 'm'), and the press state before the report.
+// Written branch-free (ite terms) so that the reference adds no paths.
 func h12Reference(c int, release bool, heldBefore bool, px, py, w, h int) h12Expect {
-	var e h12Expect
-	e.x, e.y = h12Clip(px-1, w), h12Clip(py-1, h)
-	if c&4 != 0 {
-		e.mod |= ModShift
-	}
-	if c&8 != 0 {
-		e.mod |= ModAlt
-	}
-	if c&16 != 0 {
-		e.mod |= ModCtrl
-	}
+	x, y := h12Clip(px-1, w), h12Clip(py-1, h)
+	mod := h12b2i(c&4 != 0)*int(ModShift) + h12b2i(c&8 != 0)*int(ModAlt) + h12b2i(c&16 != 0)*int(ModCtrl)
 	motion := c&32 != 0
 	k := c &^ 32
-	e.heldKnown, e.held = true, heldBefore
-	switch {
-	case release:
-		e.btnKnown, e.btn = true, ButtonNone
-		e.held = false
-	case k&0x80 != 0 || k&0xC3 == 0x42 || k&0xC3 == 0x43:
-		// buttons 8-11 / wheel left-right: outside the five buttons the property names
-		e.heldKnown = false
-	case k&0xC3 == 0x40 || k&0xC3 == 0x41:
-		if motion {
-			e.heldKnown = false // wheel codes never carry the motion bit in xterm
-		} else {
-			e.btnKnown = true
-			if k&1 == 0 {
-				e.btn = WheelUp
-			} else {
-				e.btn = WheelDown
-			}
-		}
-	case motion:
-		e.btnKnown = true
-		if heldBefore && k&3 != 3 {
-			e.btn = [3]ButtonMask{Button1, Button3, Button2}[k&3]
-		} else {
-			e.btn = ButtonNone
-		}
-	default: // press (or the legacy protocol's "3 = release")
-		e.btnKnown = true
-		if k&3 == 3 {
-			e.btn = ButtonNone
-			e.held = false
-			e.heldKnown = false // SGR never sends 3 without motion; the legacy release is judged in H12_x11
-		} else {
-			e.btn = [3]ButtonMask{Button1, Button3, Button2}[k&3]
-			e.held = true
-		}
-	}
-	return e
+	exotic := vsymOr(k&0x80 != 0, vsymOr(k&0xC3 == 0x42, k&0xC3 == 0x43)) // buttons 8-11, wheel left/right
+	wheel := vsymOr(k&0xC3 == 0x40, k&0xC3 == 0x41)
+	b3 := k & 3
+	pressBtn := vsymIteInt(b3 == 0, int(Button1), vsymIteInt(b3 == 1, int(Button3), vsymIteInt(b3 == 2, int(Button2), int(ButtonNone))))
+	wheelBtn := vsymIteInt(k&1 == 0, int(WheelUp), int(WheelDown))
+	dragBtn := vsymIteInt(vsymAnd(heldBefore, b3 != 3), pressBtn, int(ButtonNone))
+	// button mask
+	btn := vsymIteInt(release, int(ButtonNone),
+		vsymIteInt(wheel, wheelBtn,
+			vsymIteInt(motion, dragBtn, pressBtn)))
+	btnKnown := vsymOr(release, vsymAnd(!exotic, vsymOr(!wheel, !motion)))
+	// press state afterwards
+	held := vsymIteInt(release, 0,
+		vsymIteInt(vsymOr(wheel, motion), h12b2i(heldBefore),
+			vsymIteInt(b3 == 3, 0, 1)))
+	heldKnown := vsymOr(release, vsymAnd(!exotic, vsymAnd(vsymOr(!wheel, !motion), vsymOr(vsymOr(wheel, motion), b3 != 3))))
+	return h12Expect{x: x, y: y, mod: ModMask(mod), btnKnown: btnKnown, btn: ButtonMask(btn), heldKnown: heldKnown, held: held == 1}
 }
 
 func h12Check(t *tScreen, evs []Event, e h12Expect, what string) {
@@ -140,12 +108,8 @@ func h12Check(t *tScreen, evs []Event, e h12Expect, what string) {
 	vsymAssert(x == e.x, what+": column is the reported column - 1, clipped into the screen")
 	vsymAssert(y == e.y, what+": row is the reported row - 1, clipped into the screen")
 	vsymAssert(m.Modifiers() == e.mod, what+": Shift/Alt/Ctrl match bits 4/8/16 of the button code")
-	if e.btnKnown {
-		vsymAssert(m.Buttons() == e.btn, what+": button mask matches xterm's encoding")
-	}
-	if e.heldKnown {
-		vsymAssert(t.buttondn == e.held, what+": press state follows press/release")
-	}
+	vsymAssert(vsymImplies(e.btnKnown, m.Buttons() == e.btn), what+": button mask matches xterm's encoding")
+	vsymAssert(vsymImplies(e.heldKnown, t.buttondn == e.held), what+": press state follows press/release")
 }
 
 func h12Screen() (*tScreen, int, int) {
@@ -215,11 +179,10 @@ func H12_x11() {
 	vsymAssert(buf.Len() == 1 && buf.Bytes()[0] == 'Z', "exactly the report's bytes are consumed")
 	code := int(cb) - 32
 	e := h12Reference(code, false, held, int(cx)-32, int(cy)-32, w, h)
+	// legacy protocol: code 3 (no motion) is the release: no buttons, press state cleared
 	if code&0xC3 == 3 && code&32 == 0 {
-		// legacy protocol: code 3 is the release
-		e.btnKnown, e.btn = true, ButtonNone
+		e.heldKnown, e.held = true, false
 	}
-	e.heldKnown = false // the legacy parser keeps no press state; judged through the buttons only
 	h12Check(t, evs, e, "X11")
 }
 
